@@ -88,12 +88,67 @@ def run(rep, tier, seed):
         rep.oblige("cargo build harness/dyn against /repo", False, log[-1500:])
         rep.violation({"broken": "harness build", "log": log[-3000:]}, no_input=True)
         return
-    pairs = gen(rng, tier)
+    pairs = collide_pairs() + gen(rng, tier)
     lf.add_histories(rng, [p.lr for p in pairs])
     lf.add_histories(rng, [p.glr for p in pairs])
     lf.run_cases([p.lr for p in pairs], extra_requests=lambda c: ["rawdet"])
     lf.run_cases([p.glr for p in pairs], model=False)
     check(rep, pairs, proofs_ok)
+
+
+# Layout sentences that share a prefix with a content token. The token is expected in the state after `a` only through
+# LALR-merged lookaheads; LR lexes again after the reduce (nothing matches in the new state -> layout -> x) and accepts,
+# GLR looks for the lookahead once, finds the token, and never tries the layout: known finding C07-N1.
+COLLIDE = [
+    ("S: A X | C A D;\nA: Ta;\nLayout: L;\nterminals\nTa: 'a';\nX: 'x';\nC: 'c';\nD: '#';\nL: '##';\n",
+     ["a##x", "ax", "ca#", "ca##", "a#x", "a####x", "", "x"]),
+    ("S: A X | C A Div Y;\nA: Ta;\nLayout: LayoutItem*;\nLayoutItem: WS | CommentLine;\nterminals\nTa: 'a';\nX: 'x';\nY: 'y';\nC: 'c';\n"
+     "Div: '/';\nWS: /\\s+/;\nCommentLine: /\\/\\/.*/;\n",
+     ["a// c\nx", "a x", "ca/y", "ca /y", "a //c\n//d\nx", "ca //c\n/y", "a/x"]),
+]
+
+
+def collide_pairs():
+    out = []
+    for text, inputs in COLLIDE:
+        lr = lf.Case(text, ["LR", "LALR_PAGER"] + ["-"] * 8, [("LR", "0", s, {"toks": []}) for s in inputs], gram=None, tag="collide")
+        glr = lf.Case(text, ["GLR", "LALR_RN"] + ["-"] * 8, [("GLR", "0", s, {"toks": []}) for s in inputs], gram=None, tag="collide")
+        glr.max_trees = 2
+        out.append(Pair(lr, glr))
+    return out
+
+
+def token_layout_collision(text):
+    """some string literal of a content terminal and some string/regex-source literal of a terminal reachable from the
+    Layout rule start with the same character (decided on the grammar text; string and simple regex recognizers)"""
+    import re
+    if "Layout:" not in text:
+        return False
+    rules, terms = text.split("terminals", 1)
+    lits = {}
+    for m in re.finditer(r"(\w+)\s*:\s*(?:'((?:[^'\\]|\\.)*)'|/((?:[^/\\]|\\.)*)/)", terms):
+        lits[m.group(1)] = m.group(2) if m.group(2) is not None else m.group(3).replace("\\/", "/")
+    prods = {}
+    for stmt in rules.split(";"):
+        if ":" in stmt:
+            l, r = stmt.split(":", 1)
+            prods[l.strip().split()[0]] = re.findall(r"\w+", r)
+    seen, todo = set(), ["Layout"]
+    while todo:
+        x = todo.pop()
+        if x in seen:
+            continue
+        seen.add(x)
+        todo += prods.get(x, [])
+    lay = {t for t in lits if t in seen}
+    con = {t for t in lits if t not in seen}
+    return any(lits[a][:1] and lits[a][:1] == lits[b][:1] for a in lay for b in con)
+
+
+def known_class(c, k, why):
+    if why.startswith("LR ok") and "but GLR err" in why and token_layout_collision(c.text):
+        return "C07-N1-token-layout-collision"
+    return None
 
 
 def check(rep, pairs, proofs_ok):
@@ -105,6 +160,9 @@ def check(rep, pairs, proofs_ok):
     failures = []
     corr_breaks = []
     distinct = set()
+    from common import load_findings
+    known = {f["key"]: f for f in load_findings() if f["property"] == "C07" and f["status"] == "known"}
+    seen_known = set()
     for p in pairs:
         lr, glr = p.lr, p.glr
         if lr.dump is None or glr.dump is None:
@@ -126,7 +184,13 @@ def check(rep, pairs, proofs_ok):
                     rep.count("both_err_different_position(informational)")
                 continue
             if ka != kb:
-                failures.append((glr, k, f"LR {a[:60]} but GLR {b[:60]}"))
+                why = f"LR {a[:60]} but GLR {b[:60]}"
+                key = known_class(glr, k, why)
+                if key and key in known:
+                    rep.count("known:" + key)
+                    seen_known.add(key)
+                else:
+                    failures.append((glr, k, why))
                 continue
             if ka != "ok":
                 failures.append((glr, k, f"neither Ok nor Err: LR {a[:60]} GLR {b[:60]}"))
@@ -148,6 +212,8 @@ def check(rep, pairs, proofs_ok):
             elif tp.shape(tl) != tp.shape(tg):
                 rep.count("agree_with_elision")
     rep.counters["distinct_nontrivial"] = len(distinct)
+    for key in sorted(seen_known):
+        rep.known_finding(key, known[key]["what"])
     failures.sort(key=lambda f: (len(f[0].text), len(f[0].inputs[f[1]][2])))
     for c, k, why in failures[:3]:
         rep.violation(dict(c.describe(k), why=why, kind="impl!=oracle"))
